@@ -34,6 +34,8 @@ def run(ctx):
     c07.implicit_operand_windows(ctx, dump, "x86_64", "C04.R5")
     from .c05 import phi_lowering
     phi_lowering(ctx, "C04.R6")
+    from .c29 import cast_lowering
+    cast_lowering(ctx, "C04.R11")
     # ---- R3 ----
     de = ctx.fn(P, "PeepHoleStream.do_emit")
     site = P + ":PeepHoleStream.do_emit"
